@@ -72,6 +72,151 @@ def mc(ctx: Ctx, cov: dict):
     cov["lifecycle_design_variants_rejected"] = 3
 
 
+def parse_log(stdout: str, table, pattern, method: str, label: str, dense_seen: dict, ni) -> list:
+    """ndjson of the stand-in (Configured) and of the driver / traced class (Begin, Op) -> traces for Trace_Lifecycle.tla.
+    table: {tid: [expected op records]} for scripted histories, None when the program under observation decides its own calls."""
+    traces, cur, confs = [], None, []
+    for line in stdout.splitlines():
+        k0 = line.find('{"ev"')       # the generated code prints its own messages on stdout without a newline
+        if k0 < 0:
+            continue
+        e = json.loads(line[k0:])
+        if e["ev"] == "Begin":
+            cur = {"tid": e["tid"], "ev": [], "pattern": [list(x) for x in pattern], "method": method, "network": label}
+            traces.append(cur)
+            confs = []
+            k = 0
+        elif e["ev"] == "Configured":
+            confs.append(e)
+        elif e["ev"] == "Op":
+            want = table[cur["tid"]][len(cur["ev"])] if table is not None else \
+                ({"op": e["op"], "n": e["n"], "cfg": {"atol": round(e["atol"] / 1e-20), "rtol": round(e["rtol"] / 1e-6), "mx": round(e["mx"] / 100)}}
+                 if e["op"] in ("I", "R") else {"op": e["op"], "n": 0})
+            o = dict(want)
+            o["ret"] = e["ret"]
+            o["live"] = {x: e[x] for x in ("ctx", "vec", "mat", "ls", "mem")}
+            o["bad_free"], o["use_dead"] = e["bad_free"], e["use_dead"]
+            if want["op"] == "S":
+                o["nconf"] = len(confs)
+                c = confs[0] if confs else {}
+                o["conf"] = {"atol": round(c.get("atol", 0) / 1e-20), "rtol": round(c.get("rtol", 0) / 1e-6), "mx": round(c.get("mxsteps", 0) / 100)}
+                o["attached"] = bool(c.get("ls_matrix_is_attached"))
+                o["fmt"], o["rows"], o["nnz"] = c.get("fmt", "?"), c.get("rows", -1), c.get("nnz", -1)
+                seen = c.get("seen", [])
+                vals = {(int(r), int(cc)): v for r, cc, v in seen}
+                if method == "dense":
+                    # a dense matrix has no stored structure: its non-zero cells must lie inside the assigned cells; the values are
+                    # the reference for the sparse run of the same history
+                    o["seen"] = [list(x) for x in pattern] if set(vals) <= set(pattern) else [list(x) for x in sorted(vals)]
+                    o["values_match"] = True
+                    dense_seen[(ni, cur["tid"], len(cur["ev"]))] = vals
+                else:
+                    o["seen"] = [list(x) for x in sorted(vals)]
+                    ref = dense_seen.get((ni, cur["tid"], len(cur["ev"])))
+                    o["values_match"] = ref is None or all(abs(vals.get(k2, 0.0) - v) <= 1e-12 * max(abs(v), 1e-300) for k2, v in ref.items())
+                confs = []
+            cur["ev"].append(o)
+    return traces
+
+
+def example_programs(ctx: Ctx, pid: str, cov: dict, total: dict):
+    """The example programs a user gets from `naunet example` (tests/singlegrid.cpp of the generated project) are compiled UNCHANGED with
+    the generated class and run against the stand-in; the public calls they make (reported by a force-included subclass) must be a
+    history Lifecycle.tla allows, with every clause evaluated after every call -- the programs users actually start from."""
+    import os
+    from cleo.application import Application
+    from cleo.testers.command_tester import CommandTester
+    from common import quiet
+    from naunet import chemistrydata
+    from naunet.console.commands.example import ExampleCommand
+    from naunet.console.commands.init import InitCommand
+    from naunet.console.commands.render import RenderCommand
+    from naunet.species import Species
+    app = Application()
+    for c_ in (ExampleCommand(), InitCommand(), RenderCommand()):
+        app.add(c_)
+    sets = [("minimal", 4, 5)] + ([] if ctx.quick else [("primordial", 8, 9), ("deuterium", 12, 13)])
+    dense_seen: dict = {}
+    nrun = 0
+    for xi, (exname, sel_dense, sel_sparse) in enumerate(sets):
+        pattern = None
+        for method, sel in (("dense", sel_dense), ("sparse", sel_sparse)):
+            d = ctx.scratch / "lc_example" / f"{exname}_{method}"
+            d.mkdir(parents=True)
+            cwd = os.getcwd()
+            Species.reset()
+            chemistrydata.user_binding_energy.clear()
+            chemistrydata.user_photon_yield.clear()
+            try:
+                os.chdir(d)
+                with quiet():
+                    rc = CommandTester(app.find("example")).execute(f"--select={sel}", interactive=False)
+            except (SystemExit, Exception) as e:   # noqa
+                rc = f"{type(e).__name__}: {str(e)[:120]}"
+            finally:
+                os.chdir(cwd)
+                Species.reset()
+            test = d / "tests" / "singlegrid.cpp"
+            if not test.exists() and (d / "src" / "naunet.cpp").exists():
+                # on this tree the command renders the project and then stops in tests/CMakeLists.txt ("'general' is undefined", the
+                # repository's own failing test_command_example); the program file is rendered here exactly the way the command does it
+                from jinja2 import Environment, PackageLoader
+                try:
+                    (d / "tests").mkdir(exist_ok=True)
+                    test.write_text(Environment(loader=PackageLoader("naunet")).get_template(f"tests/{exname}/singlegrid.cpp.j2").render())
+                    cov["example_command_stopped_after_the_project"] = str(rc)[:80]
+                    rc = 0
+                except Exception as e:   # noqa
+                    rc = f"{type(e).__name__}: {str(e)[:120]}"
+            if rc != 0 or not test.exists():
+                ctx.notes.append(f"lifecycle: `naunet example --select={sel}` did not produce tests/singlegrid.cpp ({rc})")
+                continue
+            macros = creader.parse_macros((d / "include/naunet_macros.h").read_text())
+            if method == "dense":
+                cells = creader.read_jac((d / "src" / "naunet_jac.cpp").read_text(), macros, "dense")
+                pattern = sorted({(r, c) for (r, c) in cells["cells"]})
+            if pattern is None:
+                continue
+            exe = ctx.scratch / f"lc_example_{exname}_{method}"
+            # (only the program's own translation unit sees the reporting subclass; the generated class is compiled as it is)
+            obj = ctx.scratch / f"lc_example_{exname}_{method}.o"
+            p = subprocess.run(["g++", "-std=c++11", "-w", "-O0", "-c", "-include", str(SHIM / "include" / "naunet_traced_class.h"), "-I", str(SHIM / "include"),
+                                "-I", str(d / "include"), str(test), "-o", str(obj)], capture_output=True, text=True, timeout=600)
+            if p.returncode == 0:
+                p = compile_cpp(sorted((d / "src").glob("*.cpp")) + [obj, SHIM / "example_glue.cpp"], [SHIM / "include", d / "include"], exe)
+            if p.returncode != 0:
+                ctx.notes.append(f"lifecycle: the example program of {exname}/{method} does not compile against the stand-in: {p.stderr[-300:]}")
+                continue
+            wd = ctx.sub(f"lc_example_run_{exname}_{method}")
+            pr = subprocess.run([str(exe)], cwd=wd, capture_output=True, text=True, timeout=600)
+            label = f"example {exname}"
+            traces = parse_log(pr.stdout, None, pattern, method, label, dense_seen, 1000 + xi)
+            if pr.returncode != 0 or not traces or not traces[0]["ev"]:
+                ctx.notes.append(f"lifecycle: the example program of {exname}/{method} ended with exit code {pr.returncode}: {pr.stderr[-200:]}")
+                continue
+            nrun += 1
+            cfg = ctx.scratch / f"lc_trace_example_{exname}_{method}.cfg"
+            cfg.write_text("SPECIFICATION TSpec\nCONSTRAINT Track\nPOSTCONDITION Verdicts\nCHECK_DEADLOCK FALSE\nCONSTANTS\n"
+                           f'  Method = "{method}"\n  NEQ = {macros["NEQUATIONS"]}\n  NNZ = {macros.get("NNZ", 0)}\n  Tols = {{}}\n  Variant = "asis"\n')
+            v = validate_traces(ctx, "Trace_Lifecycle.tla", str(cfg), traces, f"lc_example_{exname}_{method}", chunk=3000)
+            total["accepted"] += v["accepted"]
+            total["states"] += v["states"]
+            cov["example_program_calls_validated"] = cov.get("example_program_calls_validated", 0) + sum(len(t["ev"]) for t in traces)
+            for t, rj in v["rejected"].items():
+                tr = next(x for x in traces if x["tid"] == t)
+                clause = rj["clauses"][0] if rj["clauses"] else "NoSuchStep"
+                at = rj["at"]
+                hist = " ".join(f"{e['op']}{e['n'] or ''}" for e in tr["ev"][:at])
+                if clause in C03_CLAUSES:
+                    total["rejected"] += 1
+                    ctx.violation(f"{pid}|{clause}|example program,{method}", f"tests/singlegrid.cpp of the {exname} example (cvode/{method}): after its calls [{hist[-80:]}] "
+                                  f"the model's clause {clause} fails: {json.dumps(tr['ev'][at - 1])[:400]}", {"trace": tr, "clauses": rj["clauses"], "at": at})
+                else:
+                    total["beyond"] += 1
+                    ctx.notes.append(f"beyond the listed properties: life-cycle clause {clause} fails for the {exname} example program (cvode/{method}) after [{hist[-80:]}]")
+    cov["example_programs_run"] = nrun
+
+
 def run(ctx: Ctx, rng: random.Random, nets: list, pid: str = "C03") -> dict:
     """nets: [(label, Network)] small networks.  Returns coverage; C03-clause failures are raised as violations of `pid`."""
     cov: dict = {}
@@ -139,45 +284,7 @@ def run(ctx: Ctx, rng: random.Random, nets: list, pid: str = "C03") -> dict:
             ctx.violation(f"{pid}|Lifecycle|crash|{method}", f"driving the generated cvode/{method} class through legal histories of public calls "
                           f"crashed (exit {pr.returncode}): {pr.stderr[-300:]}", {"network": label, "stderr": pr.stderr[-2000:]})
             continue
-        traces, cur, confs = [], None, []
-        for line in pr.stdout.splitlines():
-            k0 = line.find('{"ev"')       # the generated code prints its own messages on stdout without a newline
-            if k0 < 0:
-                continue
-            e = json.loads(line[k0:])
-            if e["ev"] == "Begin":
-                cur = {"tid": e["tid"], "ev": [], "pattern": [list(x) for x in pattern], "method": method, "network": label}
-                traces.append(cur)
-                confs = []
-                k = 0
-            elif e["ev"] == "Configured":
-                confs.append(e)
-            elif e["ev"] == "Op":
-                want = table[cur["tid"]][len(cur["ev"])]
-                o = dict(want)
-                o["ret"] = e["ret"]
-                o["live"] = {x: e[x] for x in ("ctx", "vec", "mat", "ls", "mem")}
-                o["bad_free"], o["use_dead"] = e["bad_free"], e["use_dead"]
-                if want["op"] == "S":
-                    o["nconf"] = len(confs)
-                    c = confs[0] if confs else {}
-                    o["conf"] = {"atol": round(c.get("atol", 0) / 1e-20), "rtol": round(c.get("rtol", 0) / 1e-6), "mx": round(c.get("mxsteps", 0) / 100)}
-                    o["attached"] = bool(c.get("ls_matrix_is_attached"))
-                    o["fmt"], o["rows"], o["nnz"] = c.get("fmt", "?"), c.get("rows", -1), c.get("nnz", -1)
-                    seen = c.get("seen", [])
-                    vals = {(int(r), int(cc)): v for r, cc, v in seen}
-                    if method == "dense":
-                        # a dense matrix has no stored structure: its non-zero cells must lie inside the assigned cells; the values are
-                        # the reference for the sparse run of the same history
-                        o["seen"] = [list(x) for x in pattern] if set(vals) <= set(pattern) else [list(x) for x in sorted(vals)]
-                        o["values_match"] = True
-                        dense_seen[(ni, cur["tid"], len(cur["ev"]))] = vals
-                    else:
-                        o["seen"] = [list(x) for x in sorted(vals)]
-                        ref = dense_seen.get((ni, cur["tid"], len(cur["ev"])))
-                        o["values_match"] = ref is None or all(abs(vals.get(k2, 0.0) - v) <= 1e-12 * max(abs(v), 1e-300) for k2, v in ref.items())
-                    confs = []
-                cur["ev"].append(o)
+        traces = parse_log(pr.stdout, table, pattern, method, label, dense_seen, ni)
         cfg = ctx.scratch / f"lc_trace_{ni}_{method}.cfg"
         cfg.write_text("SPECIFICATION TSpec\nCONSTRAINT Track\nPOSTCONDITION Verdicts\nCHECK_DEADLOCK FALSE\nCONSTANTS\n"
                        f'  Method = "{method}"\n  NEQ = {neq}\n  NNZ = {nnz}\n  Tols = {{}}\n  Variant = "asis"\n')
@@ -196,6 +303,7 @@ def run(ctx: Ctx, rng: random.Random, nets: list, pid: str = "C03") -> dict:
             else:
                 total["beyond"] += 1
                 ctx.notes.append(f"beyond the listed properties: life-cycle clause {clause} fails for cvode/{method} after [{hist}]")
+    example_programs(ctx, pid, cov, total)
     cov["lifecycle_traces_accepted"] = total["accepted"]
     cov["lifecycle_traces_rejected_C03"] = total["rejected"]
     cov["lifecycle_rejections_beyond_listed_properties"] = total["beyond"]
